@@ -2,6 +2,11 @@
   C10 — context independence: unrelated parts of a text are converted independently.
 -/
 import T2N.Lemmas.Scanner
+import T2N.Lemmas.Reset
+import T2N.Lemmas.Act
+import T2N.Lemmas.SimpleCC
+import T2N.Props.C02
+import T2N.Props.C06
 import T2N.Model.Api
 
 namespace T2N.C10
@@ -41,5 +46,235 @@ theorem C10_fr_scratch_irrelevant (apply : Word → DS → Res × DS) (isDecSep 
     by_cases hi : i < 2
     · rw [if_pos hi, if_pos hi]; exact ih b b' toks
     · rw [if_neg hi, if_neg hi]
+
+/-! ### the scanner forgets everything at a hard breaker (token level, any language, any threshold)
+
+Assumed of the language: `LangOk` (a refused word does not change emptiness, an accepted word leaves a
+non-empty builder: proved for the seven interpreters, `C06_langOk_*`) and `Lang.ErrFresh` (a word refused by
+the pristine builder leaves it pristine; proved below for English: `C10_en_errFresh`).
+Assumed of the separating token: `HardBreaker` (T2N/Lemmas/Reset.lean). Nothing is assumed of the tokens
+before and after it (any hints, any `cfg.sep`), nor of the threshold. -/
+
+/-- **C10 (state after a hard breaker)**: whatever was pushed before (any state satisfying the invariant
+of the run, in particular every state reached from the initial one), after a hard breaker the parser is
+pristine, the kind of the last number is forgotten and no match is open. -/
+theorem C10_hard_breaker_state (cfg : ScanCfg) (hl : LangOk cfg.lang) (hf : cfg.lang.ErrFresh) (σ : Scanner)
+    (pos : Nat) (tok : Tok) (hb : HardBreaker cfg tok) (h : RInv σ pos) :
+    ∃ σ', σ.push cfg pos tok = .ok σ' ∧ σ'.parser = {} ∧ σ'.tracker.last = Kind.none ∧
+      σ'.tracker.mstart = σ'.tracker.mend ∧ RInv σ' (pos + 1) :=
+  push_hardBreaker cfg hl hf σ pos tok hb h
+
+/-- every state reached from the initial one satisfies the invariant `RInv` -/
+theorem C10_reachable_inv (cfg : ScanCfg) (hl : LangOk cfg.lang) (hf : cfg.lang.ErrFresh) (toks : List Tok) :
+    ∃ σ, Scanner.pushAll cfg {} (enumFrom 0 toks) = .ok σ ∧ RInv σ toks.length := by
+  obtain ⟨σ, h1, h2⟩ := pushAll_rinv cfg hl hf toks {} 0 RInv.init
+  exact ⟨σ, h1, by simpa using h2⟩
+
+/-- **C10 (position shift)**: the loop over the same tokens at positions shifted by `k`, from states that
+agree up to a decided prefix `q0`, the shift of all spans by `k`, a held-back occurrence that can no longer
+be released and a previous token that is not consulted (`SSim`, `PrevOk`), ends in states that agree in the
+same way: same parser, `queue = q0 ++ shifted queue`, `mstart/mend` shifted. -/
+theorem C10_position_shift (cfg : ScanCfg) (hl : LangOk cfg.lang) (k : Nat) (q0 : List Occ) (B : List Tok)
+    (p : Nat) (σ τ : Scanner) (h : SSim k q0 σ τ) (hprev : PrevOk σ τ) (hτ : SInv τ) (hsc : ScInv τ p) :
+    ∃ σ' τ', Scanner.pushAll cfg σ (enumFrom (p + k) B) = .ok σ' ∧
+      Scanner.pushAll cfg τ (enumFrom p B) = .ok τ' ∧ SSim k q0 σ' τ' ∧ SInv τ' :=
+  pushAll_sim cfg hl k q0 B p σ τ h hprev hτ hsc
+
+/-- **C10 (scanner reset)**: the occurrences found in `A ++ [s] ++ B`, where `s` is a hard breaker, are those
+found in `A ++ [s]` followed by those found in `B` alone (same texts, values, ordinal flags; spans shifted by
+the length of `A ++ [s]`), at every threshold: nothing of `A` influences how `B` is read. -/
+theorem C10_scanner_reset (cfg : ScanCfg) (hl : LangOk cfg.lang) (hf : cfg.lang.ErrFresh) (A B : List Tok)
+    (s : Tok) (hs : HardBreaker cfg s) :
+    ∃ oa ob, findNumbers cfg (A ++ [s]) = .ok oa ∧ findNumbers cfg B = .ok ob ∧
+      findNumbers cfg (A ++ [s] ++ B) = .ok (oa ++ ob.map (shiftOcc (A.length + 1))) :=
+  findNumbers_reset cfg hl hf A B s hs
+
+/-- the same for a separator `S` of several tokens whose last token is a hard breaker (the other tokens of
+the separator are arbitrary) -/
+theorem C10_scanner_reset_sep (cfg : ScanCfg) (hl : LangOk cfg.lang) (hf : cfg.lang.ErrFresh)
+    (A S B : List Tok) (hne : S ≠ []) (hs : HardBreaker cfg (S.getLast hne)) :
+    ∃ oa ob, findNumbers cfg (A ++ S) = .ok oa ∧ findNumbers cfg B = .ok ob ∧
+      findNumbers cfg (A ++ S ++ B) = .ok (oa ++ ob.map (shiftOcc (A.length + S.length))) := by
+  have hS : S = S.dropLast ++ [S.getLast hne] := (List.dropLast_concat_getLast hne).symm
+  obtain ⟨oa, ob, h1, h2, h3⟩ := findNumbers_reset cfg hl hf (A ++ S.dropLast) B (S.getLast hne) hs
+  have e1 : A ++ S.dropLast ++ [S.getLast hne] = A ++ S := by
+    rw [List.append_assoc, ← hS]
+  have e2 : (A ++ S.dropLast).length + 1 = A.length + S.length := by
+    conv => rhs; rw [hS]
+    simp only [List.length_append, List.length_singleton]; omega
+  rw [e1, e2] at h3
+  rw [e1] at h1
+  exact ⟨oa, ob, h1, h2, h3⟩
+
+/-! ### the assumptions hold for English -/
+
+theorem mergeGroup_err_eq (b ds : DS) (cf : Bool) (m : Marker) (e : Err)
+    (h : (mergeGroup b ds cf m).1 = some e) : (mergeGroup b ds cf m).2 = b := by
+  unfold mergeGroup at h ⊢
+  split
+  · rfl
+  · rename_i hc
+    rw [if_neg hc] at h
+    cases hp : b.put ds.rbuf.reverse with
+    | mk r b' =>
+      cases r with
+      | some e' =>
+        have := put_atomic b ds.rbuf.reverse e' (by rw [hp])
+        rw [hp] at this
+        exact this
+      | none => rw [hp] at h; cases h
+
+/-- the English interpreter leaves the builder exactly as it was when it refuses a word -/
+theorem C10_en_apply_err_eq (w : Word) (b : DS) (e : Err) (h : (En.apply w b).1 = some e) :
+    (En.apply w b).2 = b := by
+  unfold En.apply En.applyFuel at h ⊢
+  by_cases hc : w.contains '-' = true
+  · rw [if_pos hc] at h ⊢
+    cases hg : execGroup (En.applyFuel 1) (splitOnChar '-' w) with
+    | error e' => rfl
+    | ok ds =>
+      rw [hg] at h
+      exact mergeGroup_err_eq b ds false ds.marker e h
+  · rw [if_neg hc] at h ⊢
+    dsimp only at h ⊢
+    generalize (En.vocab.lookup (En.lemmatize w)).getD (.fail .nan) = act at h ⊢
+    have hat := Act.exec_atomic act b
+    cases hr : (act.exec b).1 with
+    | none => rw [hr] at h; simp at h; split at h <;> cases h
+    | some e' =>
+      simp only [Option.isNone_some, Bool.false_and, Bool.false_eq_true, if_false]
+      exact hat e' hr
+
+theorem C10_en_errFresh : En.lang.ErrFresh := fun w e h => C10_en_apply_err_eq w {} e h
+
+/-- English refuses, in every state, every word without `-` whose lemma is not in its vocabulary (and that
+is not a decimal digit word nor `point`) -/
+theorem C10_en_rejects (w : Word) (h1 : w.contains '-' = false) (h2 : En.vocab.lookup (En.lemmatize w) = none)
+    (h3 : En.decVocab.lookup w = none) (h4 : (w == w!"point") = false) : En.lang.Rejects w := by
+  apply Lang.rejects_of_apply
+  · intro b
+    refine ⟨Err.nan, ?_, by decide⟩
+    show (En.apply w b).1 = some Err.nan
+    unfold En.apply En.applyFuel
+    rw [if_neg (by rw [h1]; simp)]
+    simp [h2, Act.exec]
+  · intro b
+    refine ⟨Err.nan, ?_, by decide⟩
+    show (En.applyDecimal w b).1 = some Err.nan
+    unfold En.applyDecimal
+    rw [h3]
+  · exact h4
+
+/-- hence every such word that contains a letter and is not a linking word, and the lone `.`, is a hard
+breaker for the configuration of `replace_numbers_in_text` (no separation hints) -/
+theorem C10_en_hardBreaker (thr : Nat → Bool) (tok : Tok)
+    (hsk : Scanner.isSkipped (scanCfg En.lang thr) tok = false) (hbr : breaks (scanCfg En.lang thr) tok = true)
+    (h1 : tok.lower.contains '-' = false) (h2 : En.vocab.lookup (En.lemmatize tok.lower) = none)
+    (h3 : En.decVocab.lookup tok.lower = none) (h4 : (tok.lower == w!"point") = false) :
+    HardBreaker (scanCfg En.lang thr) tok :=
+  ⟨hsk, hbr, Or.inr ⟨C10_en_rejects tok.lower h1 h2 h3 h4, Or.inl (fun _ => rfl)⟩⟩
+
+/-! non-vacuity: the full stop and an ordinary word are hard breakers; a hinted token too -/
+example (thr : Nat → Bool) : HardBreaker (scanCfg En.lang thr) { text := w!".", lower := w!"." } :=
+  C10_en_hardBreaker thr _ rfl rfl (by decide) (by decide) (by decide) (by decide)
+example (thr : Nat → Bool) : HardBreaker (scanCfg En.lang thr) { text := w!"Cats", lower := w!"cats" } :=
+  C10_en_hardBreaker thr _ rfl rfl (by decide) (by decide) (by decide) (by decide)
+example (thr : Nat → Bool) : HardBreaker (scanCfg En.lang thr) { text := w!"one", lower := w!"one", nan := true } :=
+  ⟨rfl, rfl, Or.inl rfl⟩
+
+/-- instance: `twenty . two` is read as `20`, `2` — not as `22` — and the second number is where it would be
+in the text `two` alone, shifted -/
+example : findNumbers (scanCfg En.lang zeroThr)
+    ([{ text := w!"twenty", lower := w!"twenty" }] ++ [{ text := w!".", lower := w!"." }] ++
+      [{ text := w!"two", lower := w!"two" }]) =
+    .ok [⟨0, 1, w!"20", .dec [2, 0] [], false⟩, ⟨2, 3, w!"2", .dec [2] [], false⟩] := by rfl
+
+/-- instance with a threshold (numbers below 10 are held back unless they are part of a sequence):
+`one two` is a sequence and both are reported; in `one . two` the `one` held back before the full stop is
+never released by the `two` after it — exactly as for the texts `one .` and `two` taken separately -/
+example : findNumbers (scanCfg En.lang (fun n => n < 10))
+    [{ text := w!"one", lower := w!"one" }, { text := w!" ", lower := w!" " }, { text := w!"two", lower := w!"two" }] =
+    .ok [⟨0, 1, w!"1", .dec [1] [], false⟩, ⟨2, 3, w!"2", .dec [2] [], false⟩] := by rfl
+example : findNumbers (scanCfg En.lang (fun n => n < 10))
+    ([{ text := w!"one", lower := w!"one" }] ++ [{ text := w!".", lower := w!"." }] ++
+      [{ text := w!"two", lower := w!"two" }]) = .ok [] := by rfl
+
+/-! ### consequence for the rewritten token stream -/
+
+theorem spansOk_shift (k : Nat) (os : List Occ) : ∀ (p n : Nat), C02.SpansOk p n os →
+    C02.SpansOk (p + k) (n + k) (os.map (shiftOcc k)) := by
+  induction os with
+  | nil => intro _ _ _; trivial
+  | cons o os ih =>
+    intro p n h
+    obtain ⟨h1, h2, h3, h4⟩ := h
+    exact ⟨by simp only [shiftOcc]; omega, by simp only [shiftOcc]; omega, by simp only [shiftOcc]; omega,
+      ih o.stop n h4⟩
+
+theorem splice_shift {T} (mk : List T → Word → T) (k : Nat) (os : List Occ) : ∀ (p : Nat) (ts : List T),
+    C02.splice mk (p + k) ts (os.map (shiftOcc k)) = C02.splice mk p ts os := by
+  induction os with
+  | nil => intro p ts; rfl
+  | cons o os ih =>
+    intro p ts
+    simp only [List.map_cons, C02.splice, shiftOcc]
+    rw [Nat.add_sub_add_right, Nat.add_sub_add_right, Nat.add_sub_add_right, ih o.stop]
+
+theorem splice_skip {T} (mk : List T → Word → T) (T1 T2 : List T) (p n : Nat) (os : List Occ)
+    (h : C02.SpansOk (p + T1.length) n os) :
+    C02.splice mk p (T1 ++ T2) os = T1 ++ C02.splice mk (p + T1.length) T2 os := by
+  cases os with
+  | nil => rfl
+  | cons o os =>
+    obtain ⟨h1, h2, h3, h4⟩ := h
+    simp only [C02.splice]
+    have a1 : o.start - p = T1.length + (o.start - (p + T1.length)) := by omega
+    have a2 : o.stop - p = T1.length + (o.stop - (p + T1.length)) := by omega
+    rw [a1, a2, List.take_length_add_append, List.drop_length_add_append, List.drop_length_add_append]
+    simp [List.append_assoc]
+
+theorem splice_append {T} (mk : List T → Word → T) (oa ob : List Occ) : ∀ (p : Nat) (T1 T2 : List T) (n : Nat),
+    C02.SpansOk p (p + T1.length) oa → C02.SpansOk (p + T1.length) n ob →
+    C02.splice mk p (T1 ++ T2) (oa ++ ob) =
+      C02.splice mk p T1 oa ++ C02.splice mk (p + T1.length) T2 ob := by
+  induction oa with
+  | nil =>
+    intro p T1 T2 n _ hb
+    simp only [List.nil_append, C02.splice]
+    exact splice_skip mk T1 T2 p n ob hb
+  | cons o oa ih =>
+    intro p T1 T2 n ha hb
+    obtain ⟨h1, h2, h3, h4⟩ := ha
+    simp only [List.cons_append, C02.splice]
+    have l1 : o.start - p ≤ T1.length := by omega
+    have l2 : o.stop - p ≤ T1.length := by omega
+    have hlen : (T1.drop (o.stop - p)).length = T1.length - (o.stop - p) := by simp
+    have hp : o.stop + (T1.drop (o.stop - p)).length = p + T1.length := by rw [hlen]; omega
+    rw [List.take_append_of_le_length l1, List.drop_append_of_le_length l1, List.drop_append_of_le_length l2,
+      List.take_append_of_le_length (by simp; omega),
+      ih o.stop (T1.drop (o.stop - p)) T2 n (by rw [hp]; exact h4) (by rw [hp]; exact hb), hp]
+    simp [List.append_assoc]
+
+/-- **C10 (stream)**: the rewritten token stream of `A ++ [s] ++ B` is the rewritten stream of `A ++ [s]`
+followed by the rewritten stream of `B`, for every replacement constructor `mk` and every threshold. -/
+theorem C10_stream_reset (cfg : ScanCfg) (hl : LangOk cfg.lang) (hf : cfg.lang.ErrFresh) (A B : List Tok)
+    (s : Tok) (hs : HardBreaker cfg s) (mk : List Tok → Word → Tok) :
+    ∃ oa ob oab ta tb, findNumbers cfg (A ++ [s]) = .ok oa ∧ findNumbers cfg B = .ok ob ∧
+      findNumbers cfg (A ++ [s] ++ B) = .ok oab ∧
+      replaceStream mk (A ++ [s]) oa = .ok ta ∧ replaceStream mk B ob = .ok tb ∧
+      replaceStream mk (A ++ [s] ++ B) oab = .ok (ta ++ tb) := by
+  obtain ⟨oa, ob, h1, h2, h3⟩ := findNumbers_reset cfg hl hf A B s hs
+  have sa := C06.C06_spansOk cfg _ oa h1
+  have sb := C06.C06_spansOk cfg _ ob h2
+  have sab := C06.C06_spansOk cfg _ _ h3
+  refine ⟨oa, ob, _, _, _, h1, h2, h3, C02.C02_replace_is_splice mk _ oa sa,
+    C02.C02_replace_is_splice mk _ ob sb, ?_⟩
+  rw [C02.C02_replace_is_splice mk _ _ sab]
+  congr 1
+  have hk : A.length + 1 = (A ++ [s]).length := by simp
+  have sb' := spansOk_shift (A ++ [s]).length ob 0 B.length sb
+  rw [hk]
+  have sa' : C02.SpansOk 0 (0 + (A ++ [s]).length) oa := by rw [Nat.zero_add]; exact sa
+  rw [splice_append mk oa _ 0 (A ++ [s]) B _ sa' sb', splice_shift]
 
 end T2N.C10
